@@ -24,6 +24,10 @@ structure DS where
   prevImpl : Option Obs := none           -- previous implementation observation (for restart checks)
   implCompact : Option (List (String × Fields)) := none
   implAtCompact : Option Obs := none      -- the implementation's observation when `compact` ran
+  np : List (String × Nat) := []          -- number of pieces of the torrents added from a .torrent
+  spoiled : List String := []             -- ids whose stored record was damaged (it fails to load for ever)
+  maxPieces : Nat := 0                    -- Config.MaxPieces of the running session (0 = default)
+  taint : List String := []               -- the history left the tame ones: "reload" (F07), "idreuse" (F08)
 
 def splitOnStr (s sep : String) : List String := s.splitOn sep
 
@@ -63,8 +67,8 @@ def showState (d : DS) (s : State) : String :=
   let free := showNatList (s.free.mergeSort (· ≤ ·))
   let live := joinSemi (sortStr (s.reg.map showLive))
   let idx := sortStr (s.idx.map fun p => p.1 ++ ":" ++ p.2)
-  let inv := if d.junkSeen then sortStr d.junk else []
-  s!"F={free} | T={live} | D={showDb s.db d.junk} | X={if idx.isEmpty then "-" else ",".intercalate idx} | I={if inv.isEmpty then "-" else ",".intercalate inv}"
+  let inv := sortStr (s.invalid ++ (if d.junkSeen then d.junk else []))
+  s!"F={free} | T={live} | D={showDb (s.db ++ s.dead) d.junk} | X={if idx.isEmpty then "-" else ",".intercalate idx} | I={if inv.isEmpty then "-" else ",".intercalate inv}"
 
 /-! Parsing the implementation's observation. -/
 
@@ -87,7 +91,7 @@ def parseRecs (s : String) : List (String × Fields) :=
 def section? (parts : List String) (key : String) : Option String :=
   parts.findSome? fun p => if p.startsWith (key ++ "=") then some (p.drop (key.length + 1)).toString else none
 
-def parseObs (lo hi : Nat) (obs : String) : Option (String × Obs) :=
+def parseObs (lo hi : Nat) (obs : String) (junk : List String := []) : Option (String × Obs) :=
   let parts := (obs.splitOn " | ")
   match parts with
   | res :: rest =>
@@ -97,17 +101,26 @@ def parseObs (lo hi : Nat) (obs : String) : Option (String × Obs) :=
       let idx := (commaList x).map fun p => match p.splitOn ":" with
         | [a, b] => (a, b)
         | _ => (p, "")
-      some (res, ⟨lo, hi, natList f, live, parseRecs d, idx⟩)
+      let inv := ((section? rest "I").map commaList).getD []
+      some (res, ⟨lo, hi, natList f, live, parseRecs d, idx, inv.filter (fun i => !junk.contains i)⟩)
     | _, _, _, _ => none
   | [] => none
 
-/-- The C14 invariants on one observation. -/
-def invViolations (o : Obs) : List String :=
-  (if portConservation o then [] else [s!"C14 port-conservation free={showNatList o.free} owned={showNatList (o.live.map (·.f.port))} range={o.lo}..{o.hi}"]) ++
+/-- The C14 invariants on one observation `o` of the implementation.  `m` is the model's state seen the
+same way and `taint` says whether the history has left the tame ones: a failure that the model shows
+as well in such a history is the recorded finding (F07 / F08) and is named after it. -/
+def invViolations (o : Obs) (m : Obs) (taint : List String) : List String :=
+  let detail := s!"free={showNatList o.free} owned={showNatList (o.live.map (·.f.port))} range={o.lo}..{o.hi}"
+  (if portConservation o then []
+   else if taint.contains "reload" ∧ !portConservation m then [s!"C14 known-F07-reloaded-record-shares-port {detail}"]
+   else if !(lostPorts o).isEmpty then [s!"C14 port-neither-free-nor-owned ports={showNatList (lostPorts o)} {detail}"]
+   else [s!"C14 port-conservation {detail}"]) ++
   (if idsUnique o then [] else ["C14 ids-or-index-inconsistent"]) ++
-  (if registryEqDb o then [] else
+  (if registryEqDb o then []
+   else if taint.contains "idreuse" ∧ !registryEqDb m then ["C14 known-F08-invalid-id-reused-record-cleaned"]
+   else
     let kind :=
-      if !((o.db.map (·.1)).isPerm (o.live.map (·.id))) then "id-sets-differ"
+      if !((o.db.map (·.1)).isPerm (o.live.map (·.id) ++ o.invalid.filter (fun i => !(o.live.map (·.id)).contains i))) then "id-sets-differ"
       else "fields-differ"
     [s!"C14 registry-ne-db-{kind}"])
 
@@ -142,26 +155,25 @@ def kindTag (f : Fields) : String := if f.hasInfo then "torrent" else "magnet"
 def stepOp (d : DS) (op implObs : String) : DS × String × List String × List String :=
   let toks := words op
   let name := toks.headD ""
-  let implParsed := fun (lo hi : Nat) => parseObs lo hi implObs
   match name, d.st with
   | "open", _ =>
     let lo := kvNat toks "lo"; let hi := kvNat toks "hi"; let resume := kvBool toks "resume"
     let plant := commaList (kvStr toks "plant")
     let s' := match d.st with
       | none => init lo hi
-      | some s => openOn lo hi resume (updateStats s).db
+      | some s => reopen { s with lo := lo, hi := hi } resume (d.spoiled.filter (fun i => (s.bucket.map (·.1)).contains i))
     let d' := { d with st := some s', resume := resume, junkSeen := !d.junk.isEmpty,
-                       junk := (d.junk ++ plant).eraseDups }
-    let (viol, d'') := match implParsed lo hi with
-      | some (_, o) => (invViolations o, { d' with prevImpl := some o })
+                       junk := (d.junk ++ plant).eraseDups, maxPieces := 0 }
+    let (viol, d'') := match parseObs lo hi implObs d'.junk with
+      | some (_, o) => (invViolations o (observe s') d.taint, { d' with prevImpl := some o })
       | none => (["C14 unparsable-observation"], d')
     (d'', "ok | " ++ showState d' s', viol, ["branch:open"])
   | _, none => (d, "nosession", [], [])
   | _, some s =>
     let finish := fun (d' : DS) (s' : State) (res : String) (extraViol : List String) (tags : List String) =>
       let d1 := { d' with st := some s' }
-      let (viol, d2) := match implParsed s'.lo s'.hi with
-        | some (_, o) => (invViolations o, { d1 with prevImpl := some o })
+      let (viol, d2) := match parseObs s'.lo s'.hi implObs d1.junk with
+        | some (_, o) => (invViolations o (observe s') d1.taint, { d1 with prevImpl := some o })
         | none => (["C14 unparsable-observation"], d1)
       -- the harness marks a live torrent whose in-memory info dictionary no longer hashes to its info-hash
       let rot := if (implObs.splitOn "INFOROT").length ≥ 2 then ["C14 info-dictionary-corrupted-in-memory"] else []
@@ -170,7 +182,8 @@ def stepOp (d : DS) (op implObs : String) : DS × String × List String × List 
     match name with
     | "add" =>
       let kind := kvStr toks "kind"
-      if kind = "bad" ∨ kind = "baduri" ∨ kind = "oversize" then
+      let npieces := if kind = "t" then max 1 (kvNat toks "np") else 0
+      if kind = "bad" ∨ kind = "baduri" ∨ kind = "oversize" ∨ (d.maxPieces > 0 ∧ npieces > d.maxPieces) then
         finish { d with addIds := d.addIds ++ [""] } s "err:input"
           (if kind = "oversize" ∧ implRes.startsWith "ok" then ["C06 torrent-over-size-limit-accepted"] else [])
           ["branch:add-input-error", "rejected"]
@@ -182,10 +195,16 @@ def stepOp (d : DS) (op implObs : String) : DS × String × List String × List 
         let (p, gen) := match parseAddOk implRes with
           | some (id, port) => (port, id)
           | none => (s.free.headD 0, "model-generated-id")
+        -- an explicit id that is listed as invalid: the history is no longer tame (finding F08)
+        let untamed := !tame s (.add m o p gen env)
+        let d := if untamed then { d with taint := (d.taint ++ ["idreuse"]).eraseDups } else d
         match addSeq s m o p gen env with
         | (s', .ok id) =>
-          finish { d with addIds := d.addIds ++ [id] } s' s!"ok id={id} port={p}" []
-            ["branch:add-ok", "accepted", s!"branch:add-{if m.hasInfo then "torrent" else "magnet"}"]
+          -- `resumer.Write` puts every key: a damaged record of the same id is whole again
+          finish { d with addIds := d.addIds ++ [id], np := (id, npieces) :: d.np.filter (fun e => e.1 != id),
+                          spoiled := d.spoiled.filter (· != id) } s' s!"ok id={id} port={p}" []
+            (["branch:add-ok", "accepted", s!"branch:add-{if m.hasInfo then "torrent" else "magnet"}"] ++
+             (if untamed then ["branch:untamed-invalid-id-reused"] else []) ++ (if npieces > 1 then ["branch:add-multi-piece"] else []))
         | (s', .error e) =>
           finish { d with addIds := d.addIds ++ [""] } s' (errStr e) [] [s!"branch:add-{errStr e}", "rejected"]
     | "cadd" =>
@@ -224,12 +243,32 @@ def stepOp (d : DS) (op implObs : String) : DS × String × List String × List 
       let id := refId d (kvNat toks "t")
       if id ∉ s.regIds then finish d s "absent" [] ["branch:absent"]
       else finish d (bump s id ⟨kvNat toks "dl", kvNat toks "ul", kvNat toks "wa", kvNat toks "se"⟩) "ok" [] ["branch:bump"]
-    | "flush" => finish d (updateStats s) "ok" [] ["branch:flush"]
+    | "flush" =>
+      -- `updateStats` dereferences the bucket of every registered torrent without a nil check
+      if updateStatsPanics s then
+        finish d s "panic:nilderef"
+          [if d.taint.contains "idreuse" then "C14 known-F08-updateStats-nil-bucket" else "C14 updateStats-nil-bucket"] ["branch:flush-panics"]
+      else finish d (updateStats s) "ok" [] ["branch:flush"]
+    | "clean" =>
+      -- CleanDatabase: a planted plain key is listed as invalid too and makes DeleteBucket fail (nothing is deleted)
+      if d.junkSeen ∧ !d.junk.isEmpty then finish d s "err:clean" [] ["branch:clean-fails-on-plain-key"]
+      else
+        match clean s with
+        | (s', true) => finish { d with spoiled := d.spoiled.filter (fun i => (s'.bucket.map (·.1)).contains i) } s' "ok" []
+            [if s.invalid.isEmpty then "branch:clean-nothing" else "branch:clean-removes-failed-records"]
+        | (_, false) => finish d s "err:clean" [] ["branch:clean-missing-bucket"]
     | "bfcheck" =>
       -- oracle only (bitfields are not part of the registry model): a torrent without a bitfield before and after
       -- the last compaction has none in the compacted database
       finish d s "bf=same" (if implRes = "bf=same" then [] else [s!"C14 compact-invents-bitfield {implRes}"]) ["branch:bfcheck"]
     | "compact" =>
+      -- `CompactDatabase` reads the record of every registered torrent that has metadata: it fails when one is
+      -- missing (only after finding F08: `CleanDatabase` deleted the record of a live torrent)
+      if (compact s).isNone then
+        finish { d with lastCompact := none, implCompact := none } s (if implRes.startsWith "err:" then implRes else "err:compact")
+          [if d.taint.contains "idreuse" then "C14 known-F08-compact-fails-record-missing" else s!"C14 compact-failed res={implRes}"]
+          ["branch:compact-fails"]
+      else
       let c := (compact s).getD []
       -- oracle on the implementation's result
       let (cviol, implC) :=
@@ -260,6 +299,10 @@ def stepOp (d : DS) (op implObs : String) : DS × String × List String × List 
       match d.lastCompact with
       | none => finish d s "nocompact" [] ["branch:swap-nocompact"]
       | some c =>
+        if updateStatsPanics s then
+          ({ d with st := none }, "panic:close | nosession",
+            [if d.taint.contains "idreuse" then "C14 known-F08-updateStats-nil-bucket" else "C14 updateStats-nil-bucket"], ["branch:close-panics"])
+        else
         let resume := kvBool toks "resume"
         let s' := openOn s.lo s.hi resume c
         -- oracle: the implementation's session after the swap is the restart of (live-with-metadata, compacted db)
@@ -270,18 +313,68 @@ def stepOp (d : DS) (op implObs : String) : DS × String × List String × List 
             let before' : Obs := { before with live := before.live.map fun t => match dbGet ic t.id with
               | some r => { t with f := { t.f with cnt := r.cnt } }
               | none => t }
-            if restartEquiv resume before' o' then [] else ["C14 restart-mismatch-after-swap"]
+            if restartEquiv resume [] before' o' then [] else ["C14 restart-mismatch-after-swap"]
           | _, _, _ => []
-        finish { d with lastCompact := none, implCompact := none, resume := resume, junkSeen := false, junk := [] } s' "ok" rviol ["branch:swap", "restart"]
+        finish { d with lastCompact := none, implCompact := none, resume := resume, junkSeen := false, junk := [],
+                        spoiled := [], maxPieces := 0 } s' "ok" rviol ["branch:swap", "restart"]
     | "reopen" =>
+      if updateStatsPanics s then
+        ({ d with st := none }, "panic:close | nosession",
+          [if d.taint.contains "idreuse" then "C14 known-F08-updateStats-nil-bucket" else "C14 updateStats-nil-bucket"], ["branch:close-panics"])
+      else
       let resume := kvBool toks "resume"
-      let s' := reopen s resume
-      let rviol := match d.prevImpl, parseObs s.lo s.hi implObs with
-        | some o, some (_, o') => if restartEquiv resume o o' then [] else ["C14 restart-mismatch-after-reopen"]
+      let bucket := s.db ++ s.dead
+      let bids := bucket.map (·.1)
+      -- records damaged while the session is closed: `<k>:<how>`; a record without info bytes gets how=infohash
+      let spoil : List (String × String) := (commaList (kvStr toks "spoil")).filterMap fun sp =>
+        match sp.splitOn ":" with
+        | [k, how] =>
+          let id := refId d (parseNat! k)
+          match dbGet bucket id with
+          | some r => some (id, if r.hasInfo then how else "infohash")
+          | none => none
+        | _ => none
+      let mp := kvNat toks "maxpieces"
+      let tooBig := if mp = 0 then [] else
+        (bucket.filter fun e => e.2.hasInfo ∧ ((d.np.find? (fun x => x.1 == e.1)).map (·.2)).getD 1 > mp).map (·.1)
+      let stof := ((commaList (kvStr toks "stofail")).map fun k => refId d (parseNat! k)).filter (fun i => bids.contains i)
+      let spoiled := (d.spoiled ++ spoil.map (·.1)).eraseDups.filter (fun i => bids.contains i)
+      let bad := (spoiled ++ tooBig ++ stof).eraseDups
+      let untamed := !tame s (.reopen resume bad)
+      let d := if untamed then { d with taint := (d.taint ++ ["reload"]).eraseDups } else d
+      let s1 := reopen s resume bad
+      -- the 19-byte info-hash is visible in the stored record
+      let s' := spoil.foldl (fun st sp => if sp.2 = "infohash" then
+          tamper st sp.1 ((((dbGet bucket sp.1).map (·.infoHash)).getD "").take 38).toString else st) s1
+      let rviol := match d.prevImpl, parseObs s.lo s.hi implObs d.junk with
+        | some o, some (_, o0) =>
+          -- a record that did not load before and loads now (its failure was transient) is a torrent the previous
+          -- session did not have: that is no mismatch (a clash of its port is reported by port conservation)
+          -- the restart is judged without these torrents (their ports count as free)
+          let reloaded := o0.live.filter fun t => o.invalid.contains t.id && !(o.live.map (·.id)).contains t.id
+          -- a port that two live torrents shared before the restart (finding F07, reported when it arose) is still
+          -- owned by the other one when the record of one of them fails: it cannot be demanded free
+          let shared := (o.live.filter fun t => (o.live.filter fun u => u.f.port = t.f.port).length ≥ 2).map (·.f.port)
+          let o' := { o0 with live := o0.live.filter (fun t => !reloaded.contains t),
+                              free := o0.free ++ reloaded.map (·.f.port) ++ shared }
+          if restartEquiv resume bad o o' then []
+          else
+            -- which clause failed: the torrents whose record does not load, or the others
+            let failedOk := o.live.all fun t => !bad.contains t.id ||
+              ((regGet o'.live t.id).isNone && o'.invalid.contains t.id && (dbGet o'.db t.id).isSome && o'.free.contains t.f.port)
+            if failedOk then ["C14 restart-mismatch-after-reopen"]
+            else [s!"C14 failed-load-not-isolated bad={",".intercalate bad}"]
         | _, _ => []
-      finish { d with resume := resume, junkSeen := !d.junk.isEmpty, lastCompact := d.lastCompact } s' "ok" rviol
+      let liveBad := s.reg.any (fun t => bad.contains t.id)
+      finish { d with resume := resume, junkSeen := !d.junk.isEmpty, lastCompact := d.lastCompact, spoiled := spoiled, maxPieces := mp } s' "ok" rviol
         (["branch:reopen", "restart"] ++ (if s.reg.any (·.f.started) then ["branch:reopen-with-started"] else []) ++
-         (if s.reg.any (fun t => t.f.cnt.dl + t.f.cnt.ul + t.f.cnt.seeded > 0) then ["branch:reopen-with-counters"] else []))
+         (if s.reg.any (fun t => t.f.cnt.dl + t.f.cnt.ul + t.f.cnt.seeded > 0) then ["branch:reopen-with-counters"] else []) ++
+         (if liveBad then ["branch:reopen-record-fails-to-load", "failedload"] else []) ++
+         (spoil.map fun sp => s!"branch:failed-load-{sp.2}") ++
+         (if !tooBig.isEmpty then ["branch:failed-load-maxpieces"] else []) ++
+         (if !stof.isEmpty then ["branch:failed-load-storage"] else []) ++
+         (if !s.dead.isEmpty ∧ !untamed then ["branch:reopen-failed-record-fails-again"] else []) ++
+         (if untamed then ["branch:untamed-failed-record-loads-later"] else []))
     | _ => finish d s "err:badop" [] []
 
 def suite : Suite where
@@ -293,8 +386,8 @@ def suite : Suite where
         let (d', obs, viol, t) := stepOp d o.1 o.2
         (d', (obs, viol) :: rs, tags ++ t)) ({}, [], [])
     let tags := tags.eraseDups
-    -- non-trivial: at least one accepted add, one rejected add and one restart in the history
-    let nt := if tags.contains "accepted" ∧ tags.contains "rejected" ∧ tags.contains "restart" then ["nontrivial"] else []
+    -- non-trivial: an accepted add and a restart, with a rejected add or a record of a live torrent that fails to load
+    let nt := if tags.contains "accepted" ∧ tags.contains "restart" ∧ (tags.contains "rejected" ∨ tags.contains "failedload") then ["nontrivial"] else []
     (rs.reverse, (tags.filter (fun t => t.startsWith "branch:")) ++ nt)
 
 /-- Same driver; the harness generator issues `cadd` ops (concurrent callers with one explicit id). -/
